@@ -342,7 +342,11 @@ func castRecordBatch(batch arrow.RecordBatch, targetSchema *arrow.Schema) (arrow
 			cols[i] = srcCol
 			continue
 		}
-		datum, err := compute.CastDatum(ctx, compute.NewDatum(srcCol), compute.SafeCastOptions(targetType))
+		// NewDatum retains srcCol's data; drop that reference once the cast has
+		// run, or the source buffers outlive the batch they came from.
+		srcDatum := compute.NewDatum(srcCol)
+		datum, err := compute.CastDatum(ctx, srcDatum, compute.SafeCastOptions(targetType))
+		srcDatum.Release()
 		if err != nil {
 			// Release already-cast columns
 			for j := range i {
